@@ -35,6 +35,12 @@ class SizingSetModel(ModelObj):
     def snapshot(self):
         return SizingSetModel(self.has, self.frozen)
 
+    def py_havoc(self, st):
+        """Loop havoc of a set the loop may change (`supported.add(..)` inside a loop): arbitrary membership."""
+        if self.frozen:
+            raise Unsupported("havoc of a frozenset of sizing modes")
+        self.has = {m: st.fresh_bool(f"sizing^.{getattr(m, 'value', m)}") for m in self.has}
+
     def py_truth(self, st):
         return either(*self.has.values())
 
